@@ -136,7 +136,8 @@ def diff(pages, table, reasons, stored):
                 rel = "other-namespace"
             else:
                 rel = "other"
-            out.append({"rule": "stored-under-other-title(%s)" % rel, "key": m, "uids": [e["uid"]],
+            affix = m[0][:len(m[0]) - len(x[0])] if rel == "prefix-dropped" else x[0][:len(x[0]) - len(m[0])] if rel == "prefix-added" else ""
+            out.append({"rule": "stored-under-other-title(%s)" % rel, "key": m, "uids": [e["uid"]], "hint": affix,
                         "detail": "page %r is stored as %r" % (m, x)})
             continue
         cand = [k for k in altered if k not in used_alt and _same_content(e, stored[k])]
@@ -197,7 +198,18 @@ def diff(pages, table, reasons, stored):
             det = "page %r: expected %r stored %r" % (k, _short({"body": e["body"], "model": e["model"], "redirect": e["redirect"]}), _short(g))
         # pages whose expected key equals this key (duplicates) are all involved
         uids = [e["uid"]] + [p["uid"] for p in pages if (p["title"], p["ns"]) == k and p["uid"] != e["uid"]]
-        out.append({"rule": rule, "key": k, "uids": uids, "detail": det})
+        hint = ""
+        if "body" in fields:
+            eb, gb = e["body"], g["body"]
+            if eb is None or gb is None:
+                hint = "none"
+            elif gb == eb.strip():
+                hint = "stripped"
+            elif len(gb) != len(eb):
+                hint = "shorter" if len(gb) < len(eb) else "longer"
+            else:
+                hint = "same-length"
+        out.append({"rule": rule, "key": k, "uids": uids, "detail": det, "hint": hint})
     return out
 
 
